@@ -850,6 +850,14 @@ type Variant struct {
 	// of C, O, CN. The order is the same everywhere: issuer fields are byte copies of
 	// the issuer's subject as RFC 5280 wants it.
 	RDNOrderPermuted bool
+	// The SignerIdentifier (issuerAndSerialNumber) writes the issuer's attributes in the reverse order of the
+	// DS certificate's issuer field ("attribute order inside names" does not affect validity).
+	SIDIssuerReordered bool
+	// Names repeat an attribute type: C, O, OU=Passports, OU=eMRTD, CN.
+	RepeatedAttrType bool
+	// The trust store additionally holds an earlier self-signed certificate of the SAME CSCA key and key identifier
+	// that expired before the signing time (a re-issued root), before / after the valid one.
+	ExpiredSameKeyAnchorFirst, ExpiredSameKeyAnchorSecond bool
 	NameStringType   string // "printable" or "utf8" ("" = utf8) for O and CN; countryName is always PrintableString
 	// Signing time exactly at the DS certificate's notBefore / notAfter (both are inside the validity period).
 	SigningTimeAtNotBefore, SigningTimeAtNotAfter bool
@@ -857,9 +865,13 @@ type Variant struct {
 }
 
 func (v Variant) String() string {
-	return fmt.Sprintf("ski=%v,ldsv1=%v,indef=%v,nost=%v,before=%d,after=%d,x1=%v,x2=%v,perm=%v,str=%s,nb=%v,na=%v,cs=%v",
+	s := fmt.Sprintf("ski=%v,ldsv1=%v,indef=%v,nost=%v,before=%d,after=%d,x1=%v,x2=%v,perm=%v,str=%s,nb=%v,na=%v,cs=%v",
 		v.SIDSKI, v.LDSv1, v.Indefinite, v.NoSigningTime, v.ExtraCertsBefore, v.ExtraCertsAfter, v.CrossSignedFirst, v.CrossSignedSecond,
 		v.RDNOrderPermuted, v.NameStringType, v.SigningTimeAtNotBefore, v.SigningTimeAtNotAfter, v.WithCardSecurity)
+	if v.SIDIssuerReordered || v.RepeatedAttrType || v.ExpiredSameKeyAnchorFirst || v.ExpiredSameKeyAnchorSecond {
+		s += fmt.Sprintf(",sidreorder=%v,repeat=%v,old1=%v,old2=%v", v.SIDIssuerReordered, v.RepeatedAttrType, v.ExpiredSameKeyAnchorFirst, v.ExpiredSameKeyAnchorSecond)
+	}
+	return s
 }
 
 // GenuineScenario builds one correctly issued document. The CSCA is valid
@@ -876,8 +888,11 @@ func GenuineScenario(seed int64, ks KeySpec, v Variant) (Scenario, error) {
 	}
 	name := func(cn string) Name {
 		n := Name{{OID: OIDCountry, Value: "NL", Type: Printable}, {OID: OIDOrganization, Value: "State of the Netherlands", Type: st}, {OID: OIDCommonName, Value: cn, Type: st}}
+		if v.RepeatedAttrType {
+			n = Name{n[0], n[1], {OID: OIDOrgUnit, Value: "Passports", Type: st}, {OID: OIDOrgUnit, Value: "eMRTD", Type: st}, n[2]}
+		}
 		if v.RDNOrderPermuted {
-			n[0], n[2] = n[2], n[0]
+			n[0], n[len(n)-1] = n[len(n)-1], n[0]
 		}
 		return n
 	}
@@ -908,6 +923,13 @@ func GenuineScenario(seed int64, ks KeySpec, v Variant) (Scenario, error) {
 	sg := &spec.SD.Signers[0]
 	if v.SIDSKI {
 		sg.SID = SIDSubjectKeyID
+	}
+	if v.SIDIssuerReordered {
+		rev := name("CSCA NL")
+		for i, j := 0, len(rev)-1; i < j; i, j = i+1, j-1 {
+			rev[i], rev[j] = rev[j], rev[i]
+		}
+		sg.SIDIssuerRaw = rev.DER()
 	}
 	if v.LDSv1 {
 		spec.LDSVersion = 1
@@ -953,6 +975,19 @@ func GenuineScenario(seed int64, ks KeySpec, v Variant) (Scenario, error) {
 		}
 		if v.CrossSignedSecond {
 			trust = append(trust, cross.Cert)
+		}
+	}
+	if v.ExpiredSameKeyAnchorFirst || v.ExpiredSameKeyAnchorSecond {
+		old, err := NewCA(CertSpec{Rand: rnd, Subject: name("CSCA NL"), Key: csca.Key, SKI: &KeyID{Value: csca.SKI},
+			NotBefore: time.Date(2010, 1, 1, 0, 0, 0, 0, time.UTC), NotAfter: time.Date(2020, 6, 1, 0, 0, 0, 0, time.UTC)})
+		if err != nil {
+			return Scenario{}, err
+		}
+		if v.ExpiredSameKeyAnchorFirst {
+			trust = append([][]byte{old.Cert}, trust...)
+		}
+		if v.ExpiredSameKeyAnchorSecond {
+			trust = append(trust, old.Cert)
 		}
 	}
 	sc := Scenario{Name: "genuine/" + v.String(), Class: "genuine", Note: "correctly issued document, variant " + v.String(),
